@@ -232,6 +232,10 @@ class Hooks:
     def stmt(self, ai, st, frame, stmt):
         pass
 
+    def on_assert(self, ai, st, term, cond):
+        """called for every assert terminator with the resolved condition value"""
+        pass
+
     def constrained(self, ai, st, sid, val):
         """a fork refined the unknown `sid` to `val` (switchInt / discriminant); may update st.mon"""
         pass
@@ -617,6 +621,10 @@ class AI:
                     return [(st, ("not", a[1]))] if False else [(st, self.derived_not(st, a))]
             if op == "Neg" and a[0] == "int":
                 return [(st, ("int", -a[1]))]
+            if op == "PtrMetadata":
+                n = self.len_name(st, a)
+                if n is not None:
+                    return [(st, ("sym", n))]
             return [(st, self.sym(st, self.site(st, sfx + ":un")))]
         if r == "cast":
             v = self.operand(st, frame, rv["o"])
@@ -876,6 +884,15 @@ class AI:
                         else:
                             outs.append((s2, self.sym(s2, self.site(s2, ":map_or"))))
                 return outs
+        if path in ("std::vec::Vec::len", "core::slice::<impl [T]>::len", "std::string::String::len", "core::str::<impl str>::len",
+                    "std::collections::VecDeque::len") and args:
+            n = self.len_name(st, args[0])
+            if n is not None:
+                return [(st, ("sym", n))]
+        if path in ("std::vec::Vec::is_empty", "core::slice::<impl [T]>::is_empty") and args and getattr(self.hooks, "model_is_empty", False):
+            n = self.len_name(st, args[0])
+            if n is not None:
+                return [(st, ("sym", "(%s Eq 0)" % n))]
         if path in ("std::mem::replace",) and len(args) == 2:
             v = self.resolve(st, args[0])
             if v[0] == "ref":
@@ -913,6 +930,21 @@ class AI:
         except Undecided:
             return None
         return set(v for v, m, t in sub.returns)
+
+    def len_name(self, st, v):
+        """stable name for the length of the container a pointer chain leads to (named by the container's value identity)"""
+        cur = self.resolve(st, v)
+        for _ in range(5):
+            if cur[0] == "ref":
+                inner = self.resolve(st, self.read_at(st, cur[1], cur[2]))
+                if inner[0] in ("ref", "sym"):
+                    cur = inner
+                    continue
+                return None
+            break
+        if cur[0] == "sym":
+            return "LEN(%s)" % cur[1]
+        return None
 
     def deref_val(self, st, v, n=0):
         v = self.resolve(st, v)
@@ -1216,6 +1248,7 @@ class AI:
             return outs
         if t == "assert":
             v = self.resolve_bool(st, self.operand(st, fr, term["cond"]))
+            self.hooks.on_assert(self, st, term, v)
             if v[0] == "bool" and v[1] != term["exp"]:
                 self.hooks.assert_fail(self, st, term)
                 return []
